@@ -54,7 +54,32 @@ def normalizePercentEncoding : Str → Str
   | c :: r => c :: normalizePercentEncoding r
   | [] => []
 
-/-- makeURLKey over the parsed and resolved components -/
+/-- strings.Split(s, "/") -/
+def splitSlash (s : Str) : List Str :=
+  let rec go (cur : Str) : Str → List Str
+    | [] => [cur.reverse]
+    | c :: r => if c = '/' then cur.reverse :: go [] r else go (c :: cur) r
+  go [] s
+
+/-- the loop of removeDotSegments over the segments after the leading "/" -/
+def dotLoop : List Str → List Str → List Str
+  | out, [] => out
+  | out, [seg] =>
+    if seg = ['.'] then out ++ [[]]
+    else if seg = ['.', '.'] then out.dropLast ++ [[]]
+    else out ++ [seg]
+  | out, seg :: rest =>
+    if seg = ['.'] then dotLoop out rest
+    else if seg = ['.', '.'] then dotLoop out.dropLast rest
+    else dotLoop (out ++ [seg]) rest
+
+/-- internal/urlkeyer.go removeDotSegments: RFC 3986 §5.2.4 on an absolute (or empty) path -/
+def removeDotSegments (path : Str) : Str :=
+  match path with
+  | '/' :: r => '/' :: joinWith ['/'] (dotLoop [] (splitSlash r))
+  | _ => path
+
+/-- makeURLKey over the components url.Parse delivers (path = EscapedPath) -/
 def makeURLKeyOf (scheme host path query opaq : Str) : Str :=
   if !opaq.isEmpty then opaq
   else
@@ -62,8 +87,9 @@ def makeURLKeyOf (scheme host path query opaq : Str) : Str :=
     let defP := defaultPort scheme
     let port := if port0.isEmpty then defP else port0
     let hostPort := if !port.isEmpty && port ≠ defP then lowerASCII h ++ [':'] ++ port else lowerASCII h
+    let path := removeDotSegments (normalizePercentEncoding path)
     let path := if path.isEmpty && (scheme = (str% "http") || scheme = (str% "https")) then ['/'] else path
-    let base := scheme ++ (str% "://") ++ hostPort ++ normalizePercentEncoding path
+    let base := scheme ++ (str% "://") ++ hostPort ++ path
     if query.isEmpty then base else base ++ ['?'] ++ normalizePercentEncoding query
 
 def makeURLKey (r : Req) : Str := makeURLKeyOf r.scheme r.host r.path r.query r.opaq
